@@ -50,7 +50,9 @@ def candidates(rng, n):
             tv = variant(["Wrap", "Wrap2"][j], "named" if named else "tuple", [field(ty, rng.choice(SC.FIELD_NAMES) if named else "")], transp=True)
             vs.insert(rng.randint(0, len(vs)), tv)
         # a nested derived enum as inner value of a transparent variant is covered by the dictionary below
-        E = enum(did, vs, aci=rng.random() < 0.3, style=rng.choice(["none", "none", "snake_case", "UPPERCASE"]), split=rng.randrange(2))
+        E = enum(did, vs, aci=rng.random() < 0.3, style=rng.choice(["none", "none", "snake_case", "UPPERCASE"]), split=rng.randrange(2),
+                 prefix=rng.choice([None, None, "p/", "\u00e9:"]),       # a prefix belongs to names, never to a forwarded inner value
+                 perr=rng.random() < 0.3)                                 # a custom error next to a catch-all: the catch-all still wins
         E["fwd_asref"], E["fwd_into"] = asref, into
         cands.append(E)
         did += 1
